@@ -27,13 +27,24 @@ int online[3], registered[2], fired[2], reg_agent[2], in_run_of = -1;
 int need[2][3];        /* need[b][i]: agent i was online when barrier b was registered and has not been in quiescent_state() / offline since */
 
 /* instrumented mutex (non-recursive): protocol assertions + balance */
+#ifdef FINE2      /* no CBMC threads in the one-preemption harness: atomic sections are not needed (and must not nest) */
+#define __CPROVER_atomic_begin() ((void)0)
+#define __CPROVER_atomic_end() ((void)0)
+#endif
 int concurrent_phase;   /* while two threads run, lock() blocks (assume) instead of flagging a held mutex */
+#ifdef FINE2
+static void maybe_preempt(void);
+#define PREEMPT_POINT() maybe_preempt()      /* lock and unlock operations are preemption points too */
+#else
+#define PREEMPT_POINT() ((void)0)
+#endif
 void vp_qs_lock(uint8_t *m) { struct S_struct_qmutex *q = (struct S_struct_qmutex *)m;
+	PREEMPT_POINT();
 	__CPROVER_atomic_begin();
 	if(concurrent_phase) VP_ASSUME(!q->f0); else VP_ASSERT(!q->f0, "lock() on a mutex the caller already holds (self-deadlock on a non-recursive mutex)");
 	q->f0 = 1;
 	__CPROVER_atomic_end(); }
-void vp_qs_unlock(uint8_t *m) { struct S_struct_qmutex *q = (struct S_struct_qmutex *)m; __CPROVER_atomic_begin(); VP_ASSERT(q->f0, "unlock() of a mutex that is not held"); q->f0 = 0; __CPROVER_atomic_end(); }
+void vp_qs_unlock(uint8_t *m) { struct S_struct_qmutex *q = (struct S_struct_qmutex *)m; __CPROVER_atomic_begin(); VP_ASSERT(q->f0, "unlock() of a mutex that is not held"); q->f0 = 0; __CPROVER_atomic_end(); PREEMPT_POINT(); }
 
 static int which(node_t *n) { return n == Nd[0] ? 0 : (NB > 1 && n == Nd[1]) ? 1 : -1; }
 void cb(node_t *n) {
@@ -179,3 +190,47 @@ __CPROVER_ASYNC_1: thread1();
 	VP_WITNESS(!fired[0], "the callback can fire after a concurrent pair");
 	VP_WITNESS(0, "end of the fine-grained schedule");
 }
+
+/* ------------------------------------------------------------------------------------------------------------------
+ * fine-grained WITHOUT threads ("one preemption"): a solver-chosen sequential prefix; then an OUTER operation of agent X during
+ * which, at one solver-chosen atomic access or lock operation (event number pre_at, counted by the event hooks the translator
+ * emits at every atomic load/store/RMW), a whole operation of another agent Y runs to completion inside the hook; then a
+ * solver-chosen suffix.  This explores every interleaving of two library calls in which one of them is atomic with respect to the
+ * other, at the granularity of individual atomic accesses and lock operations of the preempted call — enough to expose a value read
+ * before a lock is taken and used after it (time-of-check/time-of-use), and it needs no CBMC threads (which reject this code, A.4).
+ * The mutex blocks during the preemption (assume): Y cannot enter a section X is inside.  Ghost rules are the lenient ones of above.
+ *   -DOUT_OP=<op of X> -DPRE_OP=<op of Y>  (kinds pinned per query, agents / barrier / position solver-chosen)
+ * compile with -DIR2C_EVENTS -DIR2C_NO_ATOMIC_SECTIONS -DFINE2 */
+#ifdef FINE2
+int evt_no, pre_at = -1, pre_a, pre_b, pre_done, out_a, in_outer;
+static void maybe_preempt(void) {
+	if(!in_outer || pre_done) return;
+	if(evt_no++ != pre_at) return;
+	pre_done = 1; in_outer = 0; concurrent_phase = 1;
+	op_do(pre_a, PRE_OP, pre_b, out_a, OUT_OP);
+	concurrent_phase = 0; in_outer = 1;
+}
+void ir2c_event_fence(const char *o) { (void)o; }
+void ir2c_event_load(const void *p, const char *o) { (void)p; (void)o; maybe_preempt(); }
+void ir2c_event_store(const void *p, const char *o) { (void)p; (void)o; maybe_preempt(); }
+void ir2c_event_rmw(const void *p, const char *o) { (void)p; (void)o; maybe_preempt(); }
+void ir2c_event_stored(const void *p, const char *o) { (void)p; (void)o; }
+void harness_fine2(void) {
+	dom_init(&D);
+	for(int i = 0; i < NA; i++) { agent_init(ag(i), &D); online[i] = 1; if(i >= NON) { agent_offline(ag(i)); online[i] = 0; } }
+	for(int b = 0; b < NB; b++) { Nd[b] = (node_t *)malloc(sizeof(node_t)); VP_ASSUME(Nd[b] != 0); node_init(Nd[b], (fnptr_0)cb); }
+	seq_steps(K1);
+	int ob; VP_INPUT(out_a); VP_INPUT(ob); VP_INPUT(pre_a); VP_INPUT(pre_b); VP_INPUT(pre_at);
+	VP_ASSUME(out_a >= 0 && out_a < NA && pre_a >= 0 && pre_a < NA && out_a != pre_a && ob >= 0 && ob < NB && pre_b >= 0 && pre_b < NB && pre_at >= 0 && pre_at < 12);
+	VP_ASSUME(op_pre(out_a, OUT_OP, ob) && op_pre(pre_a, PRE_OP, pre_b));
+	VP_ASSUME(!(OUT_OP == 1 && PRE_OP == 1 && ob == pre_b));
+	in_outer = 1;
+	op_do(out_a, OUT_OP, ob, pre_a, PRE_OP);
+	in_outer = 0;
+	VP_ASSUME(pre_done);                         /* the preemption point existed on this path */
+	VP_ASSERT(D.f0.f0 == 0, "domain mutex still held after both calls returned");
+	seq_steps(K2);
+	VP_WITNESS(!fired[0], "the callback can fire after a preempted call");
+	VP_WITNESS(0, "end of the one-preemption schedule");
+}
+#endif
